@@ -867,6 +867,32 @@ class FG:
         if nblocks >= 3 and r.random() < self.opts.get('p_jmpi', 0.0):
             la = self.new_local('la')
             self.p.features.add('laddr/jmpi')
+        # Loop structure.  Default: reducible CFGs - loops are laminar block intervals [h, t] entered only
+        # through their header h (back edges go to h, forward edges never jump into the middle of a
+        # loop).  With opts['irreducible'] any block may be the target of any branch (multi-entry loops).
+        irreducible = r.random() < self.opts.get('p_irreducible', 0.0)
+        loops = []
+        if not irreducible:
+            for _ in range(r.randrange(0, nblocks // 2 + 2)):
+                h = r.randrange(nblocks); t = r.randrange(h, nblocks)
+                if all(t < h2 or t2 < h or (h2 <= h and t <= t2) or (h <= h2 and t2 <= t) for h2, t2 in loops):
+                    loops.append((h, t))
+        else:
+            self.p.features.add('cfg:irreducible-allowed')
+
+        def fwd_targets(b):
+            return [c for c in range(b + 1, nblocks) if all(h <= b for h, t in loops if h < c <= t)]
+
+        def pick_target(b, allow_back=True):
+            if irreducible:
+                return labs[r.randrange(nblocks)]
+            backs = [h for h, t in loops if h <= b <= t]
+            if allow_back and backs and r.random() < 0.5:
+                self.p.features.add('cfg:back-edge')
+                return labs[r.choice(backs)]
+            fw = fwd_targets(b)
+            return labs[r.choice(fw)] if fw else lret
+
         for bi in range(nblocks):
             self.place(labs[bi])
             # fuel check: every block may be the target of a back edge
@@ -875,21 +901,22 @@ class FG:
             self.straight(r.randrange(1, blen + 1))
             last = bi == nblocks - 1
             k = r.random()
-            tgt = labs[r.randrange(nblocks)]
             if k < 0.3:
+                tgt = pick_target(bi)
                 self.cond_branch(tgt)
                 if tgt.n <= labs[bi].n: self.p.features.add('cfg:back-edge')
             elif k < 0.4:
-                self.emit('jmp', tgt)
+                self.emit('jmp', pick_target(bi))
             elif k < 0.5 and nblocks >= 2:
-                # switch over a masked value
+                # switch over a masked value; by default its targets are forward ones (a switch closing a
+                # loop is a known -O2 problem area of the pinned tree, see design/C01.md)
                 ncase = r.choice([2, 4, 8])
                 sw = self.new_local('sw')
                 self.emit('and', R(sw), self.opaque() or self.X_(), Imm(ncase - 1))
-                self.emit('switch', R(sw), *[labs[r.randrange(nblocks)] for _ in range(ncase)])
+                self.emit('switch', R(sw), *[pick_target(bi, allow_back=irreducible) for _ in range(ncase)])
                 self.p.features.add('switch')
             elif k < 0.58 and la is not None:
-                l1, l2 = labs[r.randrange(nblocks)], labs[r.randrange(nblocks)]
+                l1, l2 = pick_target(bi), pick_target(bi)
                 lgo = self.label()
                 self.emit('laddr', R(la), l1)
                 self.cond_branch(lgo)
